@@ -399,6 +399,9 @@ def worker(ctx, job):
                             steps.append((c, op, args))
                         rig.history(kind, base, Fraction(2), steps, "exhaustive")
                         ctx.hit("exhaustive_histories")
+            if job["part"] == 0 and job["kinds"][0] in ("timer", "mono_retro"):
+                ctx.sample({"kind": job["kinds"][0], "base": "3", "duration": "2", "exhaustive_history_example":
+                            [(str(c), op, [str(a) for a in args]) for c, op, args in steps]})
         else:
             rng = ctx.subrng("c42", job["index"])
             for i in range(job["n"]):
@@ -406,7 +409,7 @@ def worker(ctx, job):
                 base, duration, steps, init_second = gen_history(rng, kind, rng.randint(12, 60))
                 rig.history(kind, base, duration, steps, "random", init_second=init_second)
                 ctx.hit("random_histories_" + kind)
-                if i < 1 and job["index"] < 20:
+                if i < 1:
                     ctx.sample({"kind": kind, "base": str(base), "duration": str(duration),
                                 "first_steps": [(str(c), op, [str(a) for a in args]) for c, op, args in steps[:6]]})
     finally:
